@@ -676,6 +676,11 @@ func (s *SecureChannel) open(ctx context.Context, instance *channelInstance, req
 	defer func() {
 		if s.openingInstance == nil || s.openingInstance.state != channelActive {
 			debug.Printf("uasc %d: failed to open a new secure channel", s.c.ID())
+			// a failed renewal has still used sequence numbers of the
+			// channel: the instance that stays active continues after them
+			if requestType == ua.SecurityTokenRequestTypeRenew && s.openingInstance != nil {
+				instance.sequenceNumber = s.openingInstance.sequenceNumber
+			}
 		}
 		s.openingInstance = nil
 	}()
@@ -888,6 +893,11 @@ func (s *SecureChannel) scheduleRenewal(instance *channelInstance) {
 	case <-t.C:
 	}
 
+	// the token has already been replaced by an explicit renewal
+	if cur, err := s.getActiveChannelInstance(); err != nil || cur != instance {
+		return
+	}
+
 	// TODO: where should this error go?
 	_ = s.renew(instance)
 }
@@ -899,7 +909,9 @@ func (s *SecureChannel) renew(instance *channelInstance) error {
 	verifPoint("renew.afterReqLock")
 	s.pendingReq.Wait()
 	verifPoint("renew.afterPendingWait")
-	instance.Lock()
+	// renew the token that is active now: the given instance may have been
+	// replaced by another renewal in the meantime
+	instance = s.lockCurrentInstance(instance)
 	defer instance.Unlock()
 
 	return s.open(context.Background(), instance, ua.SecurityTokenRequestTypeRenew)
@@ -1039,7 +1051,7 @@ func (s *SecureChannel) sendAsyncWithTimeout(
 ) (<-chan *MessageBody, error) {
 
 	verifPoint("send.beforeInstanceLock")
-	instance.Lock()
+	instance = s.lockCurrentInstance(instance)
 	defer instance.Unlock()
 	verifPoint("send.afterInstanceLock")
 
@@ -1102,6 +1114,28 @@ func (s *SecureChannel) sendAsyncWithTimeout(
 	}
 
 	return resp, nil
+}
+
+// lockCurrentInstance locks the instance a request is sent with. A token
+// renewal holds the lock of the instance it replaces: a sender that picked
+// that instance as the active one before the renewal started gets the lock
+// only after the renewal and must then continue with the new active instance.
+// Otherwise it would number its chunks from the stale counter of the old
+// instance (repeating numbers the new instance has already used) and secure
+// them with the old token.
+func (s *SecureChannel) lockCurrentInstance(instance *channelInstance) *channelInstance {
+	for {
+		instance.Lock()
+		if instance.state != channelActive {
+			return instance // the instance of an OpenSecureChannel request
+		}
+		cur, err := s.getActiveChannelInstance()
+		if err != nil || cur == instance {
+			return instance
+		}
+		instance.Unlock()
+		instance = cur
+	}
 }
 
 func (s *SecureChannel) writeMessageChunks(ctx context.Context, instance *channelInstance, reqID uint32, m *Message, body any) (int, error) {
